@@ -67,6 +67,38 @@ def stream_call(ser, seq, token):
     return data, ["M", "4", str(ser), str(seq), "0", "C", "M", str(token), "st", "g", "1", "0", "-", "-", "-", "0", "ot"]
 
 
+def _invoke(ser, seq, obj, method, vargs):
+    from Pyro5 import protocol, serializers
+    from Pyro5.callcontext import current_context
+    payload = serializers.serializers_by_id[ser].dumpsCall(obj, method, vargs, {})
+    old = current_context.correlation_id
+    current_context.correlation_id = None
+    try:
+        return bytes(protocol.SendingMessage(protocol.MSG_INVOKE, 0, seq, ser, payload).data)
+    finally:
+        current_context.correlation_id = old
+
+
+def stream_next(ser, seq, value):
+    """(bytes, model item, expected reply) of the call that fetches the next item of the stream this connection opened last:
+    Pyro.Daemon.get_next_stream_item(<stream id>) - the id is only known once the daemon has answered the opening call, the
+    bytes carry a placeholder of the same length that run_real replaces (c05_rig.STREAM_PLACEHOLDER).  To the model it is a
+    call on a registered object that returns (token STREAM_BASE + item, logged by the rig when the item is handed out)."""
+    from props import c05_rig
+    data = _invoke(ser, seq, "Pyro.Daemon", "get_next_stream_item", (c05_rig.STREAM_PLACEHOLDER.decode(),))
+    if data.count(c05_rig.STREAM_PLACEHOLDER) != 1:
+        raise ValueError("placeholder not found in the rendered call")
+    item = ["M", "4", str(ser), str(seq), "0", "C", "M", str(c05_rig.STREAM_BASE + value), "r", "g", "1", "0", "-", "-", "-", "0", "ot"]
+    return data, item, ["item", seq, ser, value]
+
+
+def commfail_call(ser, seq, kind, token):
+    """(bytes, model item) of a call whose method raises a Pyro CommunicationError other than ConnectionClosedError /
+    SerializeError (the outcome of a failed nested proxy call): not reported, the connection is ended"""
+    data = _invoke(ser, seq, "poison", "commfail", (kind, token))
+    return data, ["M", "4", str(ser), str(seq), "0", "C", "M", str(token), "x", "o", "1", "0", "-", "-", "-", "0", "ot"]
+
+
 # ---- payloads that carry a Proxy: any component of a handshake / call / batch payload replaced by one ---------------------
 PROXY_COMPONENTS_FRESH = ["hs-data", "hs-handshake", "hs-object"]
 PROXY_COMPONENTS_ACTIVE = ["call-objid", "call-method", "call-vargs", "call-arg", "call-kwargs",
@@ -420,6 +452,21 @@ class HistGen:
                      "body": ("call", ("refused", r.choice(["_hidden", "unexposed", "__init__", "nosuchmember"])))}
                 exp = ["error", seq, ser]
             acts.append(self.send(conn, srvkit.render_msg(m), None, False, [c08.item_tokens(("msg", m)) + ["ot"]], exp))
+        if r.random() < 0.4:
+            # the witness is half way through an item stream while the attack goes on: it opens one (a method returning an
+            # iterator) and fetches 1-3 of its items, anywhere among its other calls
+            sser = r.choice([1, 2, 3, 4])
+            self.g.token += 1
+            sseq = r.randint(0, 65535)
+            data, item = stream_call(sser, sseq, self.g.token)
+            stream = [self.send(conn, data, None, False, [item], ["stream", sseq, sser]) + ["streamopen"]]
+            for v in range(1, r.choice([1, 2, 3, 3]) + 1):
+                sseq = r.randint(0, 65535)
+                data, item, exp = stream_next(sser, sseq, v)
+                stream.append(self.send(conn, data, None, False, [item], exp) + ["streamnext"])
+            pos = sorted(r.randint(1, len(acts)) for _ in stream)
+            for k, (p, a) in enumerate(zip(pos, stream)):
+                acts.insert(p + k, a)
         return acts
 
     # -- hostile traffic
@@ -460,6 +507,15 @@ class HistGen:
             acts[-1].append("streamunread")
             e = r.choice(["eof", "reset"])
             acts.append(self.send(conn, b"", e, False, [["X", "ot"]]))
+            return acts
+        if 0.53 <= x < 0.58 and not fresh:
+            # a method that raises a Pyro CommunicationError (a nested call of its own failed); the caller stays connected and
+            # waits: it must get an answer or lose the connection, never neither
+            self.g.token += 1
+            data, item = commfail_call(r.choice([1, 2, 3, 4]), r.randint(0, 65535), r.choice(["timeout", "protocol", "toolarge", "comm"]),
+                                       self.g.token)
+            acts.append(self.send(conn, data, None, False, [item]))
+            acts[-1].append("commraise")
             return acts
         if 0.35 <= x < 0.47 and self.trap is not None:
             # a payload in which one component is a serialised Proxy pointing at an endpoint of the harness
@@ -550,7 +606,7 @@ class HistGen:
         m = call_msg(ser, 78, {"token": self.g.token})
         steps.append(self.send(fresh, srvkit.render_msg(m), None, False, [c08.item_tokens(("msg", m)) + ["ot"]], ["fresh-call", 78, ser, self.g.token]))
         return {"servertype": servertype, "poolsize": poolsize, "commtimeout": commtimeout, "nconn": fresh + 1,
-                "linger": r.choice([None, 1e-9, 1e-9]),      # ITER_STREAM_LINGER: default (30 s) or "already over at the next housekeeping"
+                "linger": r.choice([None, 1e-9, 1e-9, 0]),   # ITER_STREAM_LINGER: default (30 s), "already over at the next housekeeping", 0 = none
                 "witnesses": list(range(nwit)), "hostile": hostile, "fresh": fresh, "pre": pre, "post": post, "steps": steps}
 
 
